@@ -7,9 +7,9 @@ import (
 	"fmt"
 	"go/ast"
 	"go/constant"
-	"os"
 	"go/token"
 	"go/types"
+	"os"
 	"strings"
 )
 
